@@ -254,6 +254,76 @@ def nested_def_scoping(path: Path):
     raise TranslatorError("func_checker.py: check_nested_func_def binds the nested name in an unknown way")
 
 
+def scan_call_objects(int_root: Path):
+    """State on the persistent call-compiler / call-checker objects of the std library.  These
+    objects are created once at import (`@custom_function(SomeCompiler(...))`) and live for the
+    whole session; the modelled protocol is: `__init__` stores construction parameters, the base
+    class `_setup` overwrites every per-call attribute before check/compile runs, and nothing else
+    is stored.  Reported: attribute writes on self/cls outside __init__ and the base `_setup`s,
+    `_setup` overrides, class-level assignments, caching decorators, and in-place mutation of
+    objects reached through `self.*` (directly or through a local bound to `self.<attr>`)."""
+    files = sorted((int_root / "std/_internal/compiler").rglob("*.py")) + [
+        int_root / "std/_internal/checker.py", int_root / "definition/custom.py"]
+    out = []
+    for p in files:
+        if not p.exists():
+            raise TranslatorError(f"missing {p}")
+        rel = "internals/" + p.relative_to(int_root).as_posix()
+        tree = ast.parse(p.read_text())
+        for cls in [n for n in ast.walk(tree) if isinstance(n, ast.ClassDef)]:
+            base_setup = rel.endswith("definition/custom.py") and cls.name in (
+                "CustomCallChecker", "CustomInoutCallCompiler", "CustomCallCompiler")
+            for st in cls.body:
+                tg, val = _targets(st)
+                for t in tg:
+                    # (string constants of diagnostics classes are not state)
+                    if isinstance(t, ast.Name) and not (isinstance(val, ast.Constant) and isinstance(val.value, str)):
+                        out.append(f"{rel}:{cls.name}.{t.id}:class-attr")
+                if not isinstance(st, (ast.FunctionDef, ast.AsyncFunctionDef)):
+                    continue
+                for d in st.decorator_list:
+                    n = _callname(d.func) if isinstance(d, ast.Call) else _callname(d)
+                    if n in CACHE_DECOS or n == "cached_property":
+                        out.append(f"{rel}:{cls.name}.{st.name}:{n}")
+                if st.name == "_setup" and not base_setup:
+                    out.append(f"{rel}:{cls.name}._setup:override")
+                aliases = {}
+                for sub in ast.walk(st):
+                    tgs = []
+                    if isinstance(sub, ast.Assign):
+                        tgs = sub.targets
+                        if (len(sub.targets) == 1 and isinstance(sub.targets[0], ast.Name)
+                                and isinstance(sub.value, ast.Attribute) and _root(sub.value) in ("self", "cls")):
+                            aliases[sub.targets[0].id] = ast.unparse(sub.value)
+                    elif isinstance(sub, (ast.AugAssign, ast.AnnAssign)):
+                        tgs = [sub.target]
+                    for t in tgs:
+                        if not isinstance(t, (ast.Attribute, ast.Subscript)):
+                            continue
+                        rt = _root(t)
+                        direct = isinstance(t, ast.Attribute) and isinstance(t.value, ast.Name)
+                        if rt in ("self", "cls"):
+                            if direct and (st.name == "__init__" or (st.name == "_setup" and base_setup)):
+                                continue
+                            out.append(f"{rel}:{cls.name}.{st.name}:{ast.unparse(t)}=")
+                        elif rt in aliases:
+                            out.append(f"{rel}:{cls.name}.{st.name}:{ast.unparse(t)}= [{rt} = {aliases[rt]}]")
+                    if (isinstance(sub, ast.Call) and isinstance(sub.func, ast.Attribute) and sub.func.attr in MUT_METHODS):
+                        rt = _root(sub.func.value)
+                        if rt in ("self", "cls") and isinstance(sub.func.value, (ast.Attribute, ast.Subscript)):
+                            out.append(f"{rel}:{cls.name}.{st.name}:{ast.unparse(sub.func)}()")
+                        elif rt in aliases and isinstance(sub.func.value, ast.Name):
+                            out.append(f"{rel}:{cls.name}.{st.name}:{ast.unparse(sub.func)}() [{rt} = {aliases[rt]}]")
+        # module-level caches in these files
+        for st in tree.body:
+            if isinstance(st, (ast.FunctionDef, ast.AsyncFunctionDef)):
+                for d in st.decorator_list:
+                    n = _callname(d.func) if isinstance(d, ast.Call) else _callname(d)
+                    if n in CACHE_DECOS:
+                        out.append(f"{rel}:{st.name}:{n}")
+    return sorted(set(out))
+
+
 def cfg_compiler(path: Path):
     tree = ast.parse(path.read_text())
     fns = {n.name: n for n in tree.body if isinstance(n, ast.FunctionDef)}
@@ -335,10 +405,12 @@ def inventory(repo: Path):
     fin = tracing_state(int_root / "tracing/state.py")
     writes = scan_session_writes(int_root, "internals") + scan_session_writes(pub_root, "guppylang")
     nested_leak = nested_def_scoping(int_root / "checker/func_checker.py")
+    call_objs = scan_call_objects(int_root)
     return dict(engine_fields=fields, reset_fields=reset_fields, check_resets_first=check_first,
                 compile_checks_first=compile_first, global_state=glob, mutation_sites=muts,
                 input_tys_mentions=sorted(rd), guard_present=guard, has_finally=fin, order=order,
-                session_write_sites=writes, nested_writes_namespace=nested_leak)
+                session_write_sites=writes, nested_writes_namespace=nested_leak,
+                call_object_state=call_objs)
 
 
 def translate(repo: Path) -> str:
@@ -357,6 +429,7 @@ def translate(repo: Path) -> str:
         f"Definition mutation_sites : list string := {coq_list(inv['mutation_sites'])}.",
         f"Definition input_tys_mentions : list string := {coq_list(inv['input_tys_mentions'])}.",
         f"Definition session_write_sites : list string := {coq_list(inv['session_write_sites'])}.",
+        f"Definition call_object_state : list string := {coq_list(inv['call_object_state'])}.",
         f"Definition nested_writes_namespace : bool := {b(inv['nested_writes_namespace'])}.",
         f"Definition guard_present : bool := {b(inv['guard_present'])}.",
         f"Definition set_tracing_state_has_finally : bool := {b(inv['has_finally'])}.",
